@@ -151,7 +151,10 @@ func genC05(g *Rng, tier string, emit func(Op)) {
 			// a signature made *with* a keyshare contribution verifies only with it
 			v := new(big.Int).Lsh(bi(1), pk.Params.Lv-1)
 			v.Add(v, g.bits(int(pk.Params.Lv-1)))
-			start := new(big.Int).Lsh(bi(1), pk.Params.Le-1)
+			// the prescribed exponent length, from the base lengths (not from the derived parameter
+			// the code under test computed): le = lstatzk + lh + lm + 5
+			specLe := pk.Params.Lstatzk + pk.Params.Lh + pk.Params.Lm + 5
+			start := new(big.Int).Lsh(bi(1), specLe-1)
 			end := new(big.Int).Add(start, new(big.Int).Lsh(bi(1), pk.Params.LePrime-1))
 			eIn := nextPrime(new(big.Int).Add(start, g.bits(int(pk.Params.LePrime-1))), 1)
 			if eIn.Cmp(end) <= 0 {
@@ -186,10 +189,10 @@ func genC05(g *Rng, tier string, emit func(Op)) {
 				{"e-prime-below-interval", "reject", nextPrime(new(big.Int).Sub(start, bi(1)), -1)},
 				{"e-prime-above-interval", "reject", nextPrime(new(big.Int).Add(end, bi(1)), 1)},
 				{"e-small-prime", "reject", []*big.Int{bi(3), bi(5), bi(65537), nextPrime(g.exactBits(120), 1)}[g.intn(4)]},
-				{"e-far-above", "reject", nextPrime(g.exactBits(int(pk.Params.Le)+1+g.intn(40)), 1)},
+				{"e-far-above", "reject", nextPrime(g.exactBits(int(specLe)+1+g.intn(40)), 1)},
 			}
 			// composites inside the interval: product of two primes, a square, a Carmichael-like multiple
-			pa := nextPrime(g.exactBits(int(pk.Params.Le)/2), 1)
+			pa := nextPrime(g.exactBits(int(specLe)/2), 1)
 			comp := new(big.Int).Div(new(big.Int).Add(start, g.bits(int(pk.Params.LePrime-2))), pa)
 			comp = nextPrime(comp, 1)
 			comp.Mul(comp, pa)
